@@ -49,7 +49,7 @@ def build_and_run_demo(tag):
         cmd = ("gcc -std=gnu11 -g -fsanitize=address,undefined -I%s/include -I%s/_build/include "
                "-DSYSTEM_ENDIANNESS_LITTLE -DUFW_USE_BUILTIN_SWAP -D_DEFAULT_SOURCE %s %s/_build/libufw.a -o %s"
                % (wt, wt, src, wt, exe))
-    p = sh(cmd)
+    p = sh(cmd, cwd=wt)
     if p.returncode != 0:
         return None, "demo build failed: " + p.stderr[-800:]
     try:
